@@ -375,6 +375,22 @@ func (w *world) observe(ci *callInfo) {
 		}
 	}
 
+	// --- the waiting queue: operators that were enqueued and not started
+	inQueue := map[*operator.Operator]bool{}
+	for _, op := range w.oc.GetWaitingOperators() {
+		inQueue[op] = true
+	}
+	for _, t := range w.live {
+		if t.last == operator.CREATED && inQueue[t.op] && !t.waiting {
+			t.waiting = true
+			r.Count("operators_left_waiting", 1)
+			t.g.logf("#%d PD keeps op%d in the waiting queue after %s", w.evNo, t.id, ci.name)
+		}
+		if t.waiting && t.epochChanged && t.changedAt == w.callNo && t.last == operator.CANCELED {
+			r.Count("waiting_operator_cancelled_after_epoch_change", 1)
+		}
+	}
+
 	// --- admissions: operators that entered the running set during this call
 	for _, rid := range sortedRids(cur) {
 		t := cur[rid]
@@ -383,6 +399,14 @@ func (w *world) observe(ci *callInfo) {
 		}
 		t.everRunning = true
 		r.Count("admitted_via_"+ci.name, 1)
+		if t.waiting {
+			// it left the waiting queue for the running set: the admission oracle below is evaluated now
+			r.Count("promotions_observed", 1)
+			r.Count("promotions_observed_during_"+ci.name, 1)
+			if t.epochChanged {
+				r.Count("promotions_observed_after_epoch_change", 1)
+			}
+		}
 		g := t.g
 		if old := prev[rid]; old != nil && old.removedBy == "" {
 			old.removedBy = "replaced-by-op" // our own higher-priority operator
@@ -394,12 +418,12 @@ func (w *world) observe(ci *callInfo) {
 			continue
 		}
 		oe, ve := t.op.RegionEpoch(), g.view.GetRegionEpoch()
+		g.logf("#%d PD admits op%d [%s] (recorded at %s, region at %s) during %s", w.evNo, t.id, t.shape, epochStr(oe), epochStr(ve), ci.name)
 		if oe.GetConfVer() != ve.GetConfVer() || oe.GetVersion() != ve.GetVersion() {
 			tt := t
 			report("admitted-with-epoch-mismatch:"+ci.name, fmt.Sprintf("%s admitted an operator recorded at %s while the region is at %s", ci.name, epochStr(oe), epochStr(ve)),
 				w.phase, len(g.log)-t.logAt, func() map[string]interface{} { return w.opWitness(tt, map[string]interface{}{"call": ci.name}) })
 		}
-		g.logf("#%d PD admits op%d [%s] (%s) via %s", w.evNo, t.id, t.shape, epochStr(oe), ci.name)
 	}
 
 	// --- operators that left the running set
@@ -675,7 +699,11 @@ func (w *world) submit(g *reg, view *core.RegionInfo, stale bool, admin bool, wa
 
 func (w *world) submitOps(g *reg, res genResult, stale bool, admin bool, waiting bool) []*opTrack {
 	r := w.r
-	r.Count("built_"+res.api, 1)
+	if res.batch {
+		r.Count("built_batch", 1)
+	} else {
+		r.Count("built_"+res.api, 1)
+	}
 	var ts []*opTrack
 	for i, op := range res.ops {
 		tg := w.regs[op.RegionID()]
@@ -709,7 +737,7 @@ func (w *world) submitOps(g *reg, res genResult, stale bool, admin bool, waiting
 		}
 		ts = append(ts, t)
 	}
-	if len(ts) == 2 {
+	if len(ts) == 2 && res.api == "merge" {
 		ts[0].pair, ts[1].pair = ts[1], ts[0]
 	}
 	name := "AddOperator"
@@ -718,6 +746,9 @@ func (w *world) submitOps(g *reg, res genResult, stale bool, admin bool, waiting
 	}
 	if admin {
 		name += "(admin)"
+	}
+	if res.batch {
+		name += "(batch)"
 	}
 	for _, t := range ts {
 		t.call = name
@@ -735,6 +766,40 @@ func (w *world) submitOps(g *reg, res genResult, stale bool, admin bool, waiting
 		}
 	})
 	return ts
+}
+
+// submitBatch hands one operator per region of gs to AddWaitingOperator in ONE call. The controller
+// enqueues all of them and promotes one; the others really sit in the waiting queue.
+func (w *world) submitBatch(gs []*reg, sameDesc bool, wants []string) []*opTrack {
+	var ops []*operator.Operator
+	api := "batch"
+	desc := descs[w.rng.Intn(len(descs))]
+	for i, g := range gs {
+		if g.view == nil {
+			continue
+		}
+		want := ""
+		if i < len(wants) {
+			want = wants[i]
+		}
+		res := w.generate(g, g.view, false, want)
+		if res.err != nil || len(res.ops) != 1 {
+			w.r.Count("builder_error_"+res.api, 1)
+			continue
+		}
+		if sameDesc {
+			res.ops[0].SetDesc(desc)
+		} else {
+			res.ops[0].SetDesc(descs[i%len(descs)])
+		}
+		ops = append(ops, res.ops[0])
+		api += ":" + res.api
+	}
+	if len(ops) < 2 {
+		return nil
+	}
+	w.r.Count(fmt.Sprintf("batch_size_%d", len(ops)), 1)
+	return w.submitOps(gs[0], genResult{api: api, ops: ops, batch: true}, false, false, true)
 }
 
 func (w *world) heartbeat(g *reg) {
